@@ -67,7 +67,6 @@ fn membership_case(commit: bool) {
     let r = MembershipTag::create(&auth, &ctx, &key, &p);
     assert!(r.is_ok());
     let t = r.ok().unwrap();
-    kani::cover!(true);
 
     let mut want = Vec::with_capacity(80);
     rfc_u16(&mut want, *ctx.protocol_version); // version (mls10 in every valid group)
@@ -126,7 +125,6 @@ fn c13_membership_tag_provider_error() {
         auth: FramedContentAuthData { signature: MessageSignature::from(vec![]), confirmation_tag: None },
     };
     let r = MembershipTag::create(&auth, &ctx, &any_exact::<NH>(), &p);
-    kani::cover!(true);
     assert!(is_provider_error(&r));
     core::mem::forget((r, auth, ctx));
 }
